@@ -14,7 +14,7 @@ use std::sync::Mutex;
 pub const PROP: &str = "C13";
 
 /// (text, imports of the observed file)
-const OBSERVED: [(&str, &[&str]); 5] = [
+const OBSERVED: [(&str, &[&str]); 6] = [
     (
         "package o; import p.B; import q.C; import r.D; import zz.Other; interface Obs { void f(in B b, Thing t); C g(); Other h(); }",
         &["p.B", "q.C", "r.D", "zz.Other"],
@@ -29,10 +29,12 @@ const OBSERVED: [(&str, &[&str]); 5] = [
         "package o; parcelable Obs { x.B b; u.U u; p.B[] c; List<q.C> d; w.W e; Thing t; }",
         &[],
     ),
+    // an enum file with imports (nothing can use them) and an unused forward declaration
+    ("package o; import p.B; import q.C; parcelable Thing; enum Obs { A, B = 2 }", &["p.B", "q.C"]),
 ];
 
 /// pool of other files: (id, text, key registered, kind)
-const POOL: [(&str, &str, &str, &str); 19] = [
+const POOL: [(&str, &str, &str, &str); 20] = [
     ("b-itf-1", "package p; interface B { }", "p.B", "interface"),
     ("b-itf-2", "package p; import o.Obs; interface B { void x(in Obs o); const int K = 1; }", "p.B", "interface"),
     ("b-par-1", "package p; parcelable B { }", "p.B", "parcelable"),
@@ -51,6 +53,7 @@ const POOL: [(&str, &str, &str, &str); 19] = [
     ("zz-other", "package zz; interface Other { }", "zz.Other", "interface"),
     ("d-unused", "package r; enum D { A }", "r.D", "enum"),
     ("b-in-subpackage", "package p.sub; enum B { A }", "p.sub.B", "enum"),
+    ("b-par-recovered-error", "package p; parcelable B { int ; int x = ; String s; }", "p.B", "parcelable"),
     ("declares-thing", "package v; parcelable Thing; parcelable Other; parcelable B; interface V { void f(in Thing t, in Other o, in B b); }", "v.V", "interface"),
 ];
 
